@@ -155,6 +155,29 @@ func (in *Interp) vsymCall(name string, args []Value, c *ssa.CallCommon) []Value
 		in.logOn = true
 		in.acclog = nil
 		return nil
+	case "Stash":
+		// Stash(key, ptr): hand a value to an environment stub (nil pointer = "decoding fails")
+		iv := args[1].(*IfaceV)
+		if iv.typ == nil {
+			in.stash[strArg(args[0])] = nil
+		} else {
+			in.stash[strArg(args[0])] = iv.val
+		}
+		return nil
+	case "Fetch":
+		// Fetch(key, ptr): copy what an environment stub captured into *ptr
+		v, ok := in.stash[strArg(args[0])]
+		if !ok {
+			return one(ts.False())
+		}
+		dst := args[1].(*IfaceV).val.(*PtrV)
+		iv, isI := v.(*IfaceV)
+		if isI && iv.typ != nil {
+			in.store(dst, iv.val)
+		}
+		return one(ts.True())
+	case "StashCount":
+		return one(ts.IntConst64(in.intSort(), int64(in.stashCount[strArg(args[0])])))
 	case "LogStop":
 		in.logOn = false
 		return nil
